@@ -405,6 +405,23 @@ func runC11(c *Ctx) {
 		}
 		okIdx = tagOfField(lookup.Call.Args[0], idx)
 		if !okIdx {
+			// prefix + tag written at the call: the tag is one operand of the concatenation
+			var operands func(v ssa.Value, d int) []ssa.Value
+			operands = func(v ssa.Value, d int) []ssa.Value {
+				if b, ok := v.(*ssa.BinOp); ok && b.Op == token.ADD && d < 4 {
+					return append(operands(b.X, d+1), operands(b.Y, d+1)...)
+				}
+				return []ssa.Value{v}
+			}
+			if ops := operands(lookup.Call.Args[0], 0); len(ops) > 1 {
+				for _, op := range ops {
+					if tagOfField(op, idx) {
+						okIdx = true
+					}
+				}
+			}
+		}
+		if !okIdx {
 			// the names worked out in a loop of their own and kept in a slice: names[i] is looked up for field i, and
 			// every store into names[j] is the tag of field j
 			var buf ssa.Value
@@ -619,7 +636,7 @@ func c11Hop(c *Ctx, hf *ssa.Function, callee string, rule string) {
 	for _, r := range returnsOf(hf) {
 		rv := retVals(r)
 		last := rv[len(rv)-1]
-		if knownNil(r.Block(), errV, false) && errDerives(last, func(v ssa.Value) bool { return v == errV }) {
+		if knownNil(r.Block(), errV, false) && errDerivesNonNil(last, r.Block(), func(v ssa.Value) bool { return v == errV }) {
 			okP = true
 		}
 	}
